@@ -113,6 +113,10 @@ func (s *JavaRefactorListener) EnterClassOrInterfaceType(ctx *ClassOrInterfaceTy
 }
 
 func (s *JavaRefactorListener) EnterAnnotation(ctx *AnnotationContext) {
+	// a type annotation on a qualified type ("java.lang.@NonNull String") has no qualifiedName child
+	if ctx.QualifiedName() == nil {
+		return
+	}
 	annotation := ctx.QualifiedName().GetText()
 
 	startLine := ctx.GetStart().GetLine()
